@@ -4,6 +4,7 @@ use crate::bits::BitsKind;
 use crate::props::bitsprops::BitsProp;
 use crate::trees::TreeKind;
 pub use crate::props::quadprops::{C05, C13};
+pub use crate::props::c08::C08;
 
 pub const C01: SeqExact = SeqExact { id: "C01", kinds: &TreeKind::QUAD_PLAIN };
 pub const C02: SeqExact = SeqExact { id: "C02", kinds: &TreeKind::QUAD_HUFF };
@@ -23,6 +24,7 @@ macro_rules! with_prop {
             "C07" => { let $p = &$crate::registry::C07; $body }
             "C05" => { let $p = &$crate::registry::C05; $body }
             "C13" => { let $p = &$crate::registry::C13; $body }
+            "C08" => { let $p = &$crate::registry::C08; $body }
             other => {
                 eprintln!("unknown property {other}");
                 std::process::exit(2);
